@@ -272,6 +272,25 @@ func DefaultsMatrix() *m.Design {
 		Features: []string{"fixed-design:defaults-matrix", "alias", "alias-type-default", "default-inherited-from-alias", "default", "nested-default", "collection-default"}}
 }
 
+// DefaultsBodyMatrix is the body half of DefaultsMatrix on its own (a design
+// whose parameter half does not build would take the body half with it).
+func DefaultsBodyMatrix() *m.Design {
+	d := DefaultsMatrix()
+	d.API.Name, d.API.Title = "defaultsbody", "Defaults matrix (bodies)"
+	s := d.Services[0]
+	s.Name = "defaultsbody"
+	var keep []*m.Method
+	for _, meth := range s.Methods {
+		if meth.Name == "body" {
+			meth.HTTP.Routes = []m.Route{{Verb: "POST", Path: "/defaultsbody/body"}}
+			keep = append(keep, meth)
+		}
+	}
+	s.Methods = keep
+	d.Features = append(d.Features, "fixed-design:defaults-body-matrix")
+	return d
+}
+
 // KindMatrix is a fixed design with one small method per (primitive kind,
 // parameter location, required/optional/defaulted) cell: the method carries
 // that single attribute and nothing else, so that code generated for one cell
